@@ -51,6 +51,11 @@ type VirtualMachine struct {
 	loadedCode   map[*compiler.Code]*code
 	running      bool
 	runDone      chan struct{}
+	// deferDepth counts the deferred calls of script functions that are in
+	// progress, one inside the other. They run after the frame of the function
+	// that deferred them has been given back, so that the frame table does not
+	// bound their nesting
+	deferDepth int
 	concAllowed  bool
 	runMutex     sync.Mutex
 	cloneMutex   sync.Mutex
@@ -991,7 +996,7 @@ func (vm *VirtualMachine) callFunction(
 	callFrame := vm.activeFrame
 	defer func() {
 		for _, partial := range callFrame.defers {
-			if err := vm.callObject(ctx, partial.Function(), partial.Args()); err != nil {
+			if err := vm.callDeferred(ctx, partial); err != nil {
 				result = nil
 				resultErr = err
 			} else {
@@ -1007,6 +1012,18 @@ func (vm *VirtualMachine) callFunction(
 		return nil, err
 	}
 	return vm.pop(), nil
+}
+
+// callDeferred makes one of the calls that a script function deferred. The
+// call may defer calls of its own, which are made inside this one in turn
+// (func f() { defer f() }): the nesting is limited like that of frames is.
+func (vm *VirtualMachine) callDeferred(ctx context.Context, partial *object.Partial) error {
+	if vm.deferDepth >= MaxFrameDepth {
+		return errz.EvalErrorf("eval error: deferred calls are nested too deeply (limit %d)", MaxFrameDepth)
+	}
+	vm.deferDepth++
+	defer func() { vm.deferDepth-- }()
+	return vm.callObject(ctx, partial.Function(), partial.Args())
 }
 
 // Call a callable object with the given arguments. Returns an error if the
